@@ -42,3 +42,19 @@ Definition c15_fine_extra (a : c15_acc) (o : cubic_op) (w ss m : Z) : bool :=
   | OnRecovered _ _ => true
   | SetMss _ => true
   end.
+
+(* ---- the cumulative slow-start bound (C05): before any loss event the byte window is at most
+   2 * (largest MSS so far) + (bytes acknowledged so far).  ss_only: no loss / recovery operation. *)
+Definition ss_only (o : cubic_op) : bool :=
+  match o with SetRemoteWindow _ | OnAck _ _ _ | SetMss _ => true | _ => false end.
+
+(* (largest MSS, acknowledged bytes) after ops, from (mm, acked) *)
+Fixpoint ss_acc (mm acked : Z) (ops : list cubic_op) : Z * Z :=
+  match ops with
+  | [] => (mm, acked)
+  | SetMss m' :: r => ss_acc (Z.max mm m') acked r
+  | OnAck _ len _ :: r => ss_acc mm (acked + len) r
+  | _ :: r => ss_acc mm acked r
+  end.
+
+Definition SS_OPS_MAX : Z := 262144.   (* 2^18 operations *)
